@@ -1,7 +1,7 @@
 META = {
     "bounds": "prefix arithmetic: all 2^32 IPv4 words / four symbolic IPv6 words, all prefix lengths 0..65535; text: IPv4 text lengths {7,15}, "
               "IPv6 text lengths {2,3,39,45}, all ports, all addresses, output buffer sizes 0..TLEN+10 (quick: a subset) and 64",
-    "outside": "that glibc's inet_ntop emits dotted quad / RFC 5952 and what inet_pton accepts (libc is outside the repository); AF_UNIX paths; text lengths other than the listed ones; "
+    "outside": "that glibc's inet_ntop emits dotted quad / RFC 5952 and what inet_pton accepts (libc is outside the repository); AF_UNIX paths longer than 40 bytes; text lengths other than the listed ones; "
                "parser behaviour on arbitrary text beyond 'text not produced by the formatter for this family is rejected by the stubbed inet_pton'",
     "assumptions": ["inet_ntop(af,a) = writes a solver-chosen NUL-terminated string of TLEN characters over the family's alphabet, ENOSPC when size < TLEN+1",
                     "inet_pton(af,s) = 1 exactly for the string produced for that family, returning the address; 0 otherwise",
@@ -41,6 +41,13 @@ def jobs(tier):
               out.append({"name": "net-af%d-t%d-p%d" % (af, tl, pd), "src": "text.c", "defs": {"AF": af, "TLEN": tl, "BS": 64, "MODE": 2, "PDIG": pd}, "unwind": max(tl + 12, 19),
                         "solver": "cadical", "shape": "addr/len text, addr %d chars, every prefix length with %d decimal digits" % (tl, pd),
                         "desc": "str_net_to_ss parses address and prefix length; default host prefix"})
+    for pl in ([2, 13] if tier == "quick" else [1, 2, 5, 13, 40]):
+        for bs in sorted(set([0, 1, pl - 1, pl, pl + 1, pl + 2]) if tier == "quick" else set(range(0, pl + 3))):
+            if bs < 0:
+                continue
+            out.append({"name": "unix-p%d-bs%d" % (pl, bs), "src": "unixpath.c", "defs": {"PLEN": pl, "BS": bs}, "unwind": pl + 6, "solver": "cadical",
+                        "shape": "AF_UNIX path of %d symbolic bytes, buffer %d bytes" % (pl, bs),
+                        "desc": "sa_addr_to_str / sa_addr_port_to_str: text == path or ENOSPC, sizes, no overrun; sa_addr_from_str round trip"})
     for fn, fnn in ((0, "addr"), (1, "addrport")):
         for n in ([1, 3, 111, 112, 113] if tier == "quick" else [1, 2, 3, 4, 8, 110, 111, 112, 113, 114, 116]):
             out.append({"name": "parse-%s-n%d" % (fnn, n), "src": "parse.c", "defs": {"LEN": n, "FN": fn}, "unwind": n + 8, "solver": "cadical",
